@@ -79,7 +79,7 @@ class EDDMConfig(BaseSPCConfig):
         :type value: float
         :raises ValueError: Value error exception
         """
-        if value <= 0.0:
+        if not value > 0.0:
             raise ValueError("beta must be greater than 0.0.")
         if value >= self.alpha:
             raise ValueError("beta must be less than alpha.")
@@ -102,7 +102,7 @@ class EDDMConfig(BaseSPCConfig):
         :type value: float
         :raises ValueError: Value error exception
         """
-        if value <= 0.0:
+        if not value > 0.0:
             raise ValueError("drift level must be greater than 0.0.")
         self._level = value
 
